@@ -455,7 +455,7 @@ static struct {
 	int dir;			/* 0 idle, 1 growing, 2 shrinking (relaxed) */
 	int in_call;			/* inside cds_lfht_resize() (watchdog) */
 	unsigned long target;
-	uint64_t count, grows, shrinks, nonpow2;
+	uint64_t count, grows, shrinks, nonpow2, offline_calls;
 } rz;
 
 static const unsigned long rz_seq[] = { 1, 2, 3, 4, 5, 8, 7, 16, 12, 32, 24, 64, 48, 33, 32, 17, 16, 9, 8, 6, 4, 3, 2 };
@@ -495,18 +495,21 @@ static void *resizer_main(void *arg)
 		int dir = target > cur ? 1 : target < cur ? 2 : 0;
 		VP_STORE(rz.dir, dir);
 		/*
-		 * qsbr: cds_lfht_resize() runs read-side critical sections of its own (bucket population /
-		 * removal), so the caller is online, like the library's own resize worker;
-		 * --qsbr-resize-offline=1 selects the offline caller.
+		 * qsbr: the header rule ("not from a read-side critical section") means an OFFLINE caller;
+		 * cds_lfht_resize() goes online by itself for the part that walks the chains.  Both kinds of
+		 * caller are used (--qsbr-resize-offline=1 / 0 force one, 2 = per call at random).
 		 */
-		if (!opt_qsbr_resize_offline)
+		int offline_call = opt_qsbr_resize_offline == 2 ? (int) vp_rand_n(&r, 2) : opt_qsbr_resize_offline;
+		if (!offline_call)
 			vp_rcu_online();
 		VP_STORE(rz.target, target);
 		VP_STORE(rz.in_call, 1);
 		cds_lfht_resize(ht, target);
 		VP_STORE(rz.in_call, 0);
-		if (!opt_qsbr_resize_offline)
+		if (!offline_call)
 			vp_rcu_offline();
+		if (offline_call)
+			rz.offline_calls++;
 		VP_STORE(rz.dir, 0);
 		VP_STORE(rz.count, rz.count + 1);
 		if (dir == 1)
@@ -628,6 +631,8 @@ static void common_counters(void)
 	vp_counter_add("explicit_resize_grow", rz.grows);
 	vp_counter_add("explicit_resize_shrink", rz.shrinks);
 	vp_counter_add("explicit_resize_nonpow2_target", rz.nonpow2);
+	if (VP_IS_QSBR)
+		vp_counter_add("explicit_resize_from_offline_thread", rz.offline_calls);
 	vp_counter_add("nodes_reclaimed_after_gp", n_reclaimed);
 	vp_counter_add("nodes_released_never_published", n_freed_unpublished);
 	vp_counter_add("grace_periods_waited", n_gp_waits);
@@ -650,7 +655,7 @@ int main(int argc, char **argv)
 	opt_mm = !strcmp(s, "order") ? 0 : !strcmp(s, "chunk") ? 1 : !strcmp(s, "mmap") ? 2 : !strcmp(s, "default") ? 3 : -1;
 	opt_reclaim = !strcmp(vp_arg("reclaim", "sync"), "call_rcu");
 	opt_chaos = (int) vp_arg_long("chaos", 2);
-	opt_qsbr_resize_offline = (int) vp_arg_long("qsbr-resize-offline", 0);
+	opt_qsbr_resize_offline = (int) vp_arg_long("qsbr-resize-offline", 2);
 	opt_unique = !strcmp(vp_arg("discipline", "any"), "unique");
 	opt_stall_ms = vp_arg_long("stall-ms", 20000);
 	vp_tun_count_commit_order = (unsigned) vp_arg_long("tun-commit-order", opt_resize == RZ_ACCT ? 2 : 10);
